@@ -13,6 +13,9 @@ from .mir import o_str
 PROPS = "emit_core::props::Props"
 
 
+_P = None
+
+
 def is_visitor_call(body, cs):
     """A call of the visitor closure (param 2 of for_each, or a captured visitor in a nested closure)
     or of Props::for_each on some inner collection."""
@@ -30,8 +33,8 @@ def is_visitor_call(body, cs):
     r, _ = mir.o_field_path(o)
     if r[0] == "param" and r[1] == 2 and not body.is_closure:
         return "visitor"
-    if r[0] == "capture" and ("for_each" in r[1] or r[1] in ("f", "visitor", "visit")):
-        return "visitor"
+    if r[0] == "capture" and _P is not None and common.root_param(_P, body, r) == 2:
+        return "visitor"   # the visitor parameter of the enclosing for_each, captured by a nested closure (by position, not by name)
     if r[0] == "param" and r[1] == 2 and body.is_closure and False:
         return None
     return None
@@ -162,7 +165,9 @@ def macro_get(P, b):
 
 
 def run(chk):
+    global _P
     P = mir.Program("K1")
+    _P = P
     chk.use_program(P)
     chk.explain("Rules over built MIR (configuration K1; macro call sites from K4 in the thorough tier): R1 visitor "
                 "discipline for every impl of Props::for_each incl. nested closures; R2 get/pull overrides are "
@@ -383,7 +388,7 @@ def run(chk):
                     return False, "expected exactly one keyed lookup, found %d" % len(sites), [], b.span
                 body, c = sites[0]
                 kr = common.roots(body.origin(c.args[1]))
-                if not (("param", 2) in kr or any(k == "capture" and "key" in v for k, v in kr)):
+                if not ((("param", 2) in kr and not body.is_closure) or common.derives_from_root_param(P, body, body.origin(c.args[1]), 2)):
                     return False, "lookup key is %s, not the key parameter" % o_str(body.origin(c.args[1])), [], c.loc
                 ro = b.origin(0)
                 rr = common.roots(ro)
@@ -474,7 +479,8 @@ def run(chk):
             return False, "visitor must compare the key exactly once", [], cb.span
         e = eqs[0]
         rs = common.roots(cb.origin(e.args[0])) | common.roots(cb.origin(e.args[1]))
-        if ("param", 2) not in rs or not any(k == "capture" and "key" in v for k, v in rs):
+        wanted = any(common.derives_from_root_param(P, cb, cb.origin(a), 2) for a in e.args)
+        if ("param", 2) not in rs or not wanted:
             return False, "the comparison is between %s and %s, not the visited key and the wanted key" % (
                 o_str(cb.origin(e.args[0])), o_str(cb.origin(e.args[1]))), [], e.loc
         for rb in cb.return_blocks():
